@@ -27,3 +27,54 @@ Definition k_join (sep l: kv) : res kv :=
   match sep, l with
   | KStr s, (KList xs | KTuple xs) => match join_strs s xs with Some t => Ok (KStr t) | None => Raise TypeError end
   | _, _ => Raise TypeError end.
+
+(* ---- field types as kernel values (K16: CodeBuilder.is_field_nullable) ----
+   plain type: KObj 0; typing.Any: KObj 1; type(None): KObj 2; None: KNone;
+   Optional[X]: KTuple [KStr "Optional"]; wider union with None: KTuple [KStr "UnionNone"];
+   unconstrained TypeVar: KTuple [KStr "TypeVarAny"];
+   Annotated[t, ...]: KTuple [KStr "Annotated"; t]; Final[t]: KTuple [KStr "Final"; t]; Final: KTuple [KStr "Final"] *)
+Definition ty_any : kv := KObj 1.
+Definition ty_nonetype : kv := KObj 2.
+Definition ty_tag (tag: string) (v: kv) : bool :=
+  match v with KTuple (KStr s :: _) => String.eqb s tag | _ => false end.
+(* helpers.is_annotated / is_final / is_optional / is_type_var_any(get_real_type(...)) *)
+Definition ty_is_annotated (v: kv) : bool := ty_tag "Annotated" v.
+Definition ty_is_final (v: kv) : bool := ty_tag "Final" v.
+Definition ty_is_optional (v: kv) : bool := ty_tag "Optional" v.
+Definition ty_is_typevar_any (v: kv) : bool := ty_tag "TypeVarAny" v.
+(* helpers.get_type_origin: typ.__origin__ (for Annotated[t, ...] that is t), else typ *)
+Definition ty_origin (v: kv) : kv :=
+  match v with KTuple [KStr _; t] => if ty_is_annotated v then t else v | _ => v end.
+Definition ty_is_union (v: kv) : bool := ty_tag "Optional" v || ty_tag "UnionNone" v.
+(* get_args: Final[t] -> (t,); Optional[X] -> (X, NoneType); the wider union -> (X, Y, NoneType) *)
+Definition ty_args (v: kv) : kv :=
+  match v with
+  | KTuple [KStr _; t] => if ty_is_final v then KTuple [t] else KTuple []
+  | KTuple [KStr _] => if ty_tag "Optional" v then KTuple [KObj 0; ty_nonetype]
+                       else if ty_tag "UnionNone" v then KTuple [KObj 0; KObj 3; ty_nonetype] else KTuple []
+  | _ => KTuple [] end.
+(* x in <tuple / list> *)
+Definition k_in (x c: kv) : res bool :=
+  match c with KTuple l | KList l => Ok (existsb (kv_eqb x) l) | _ => Raise TypeError end.
+
+(* nesting depth: the bound for `while True:` loops that descend into a component of the value *)
+Fixpoint kv_depth (v: kv) : nat :=
+  match v with
+  | KTuple l | KList l => S ((fix go (l: list kv) : nat := match l with [] => O | x :: r => Nat.max (kv_depth x) (go r) end) l)
+  | _ => O end.
+
+(* `while True:` whose body either rebinds the loop variable (Some) or breaks (None) *)
+Fixpoint k_iter (fuel: nat) (step: kv -> res (option kv)) (x: kv) : res kv :=
+  match fuel with
+  | O => Raise OtherError
+  | S n => match step x with
+           | Ok (Some y) => k_iter n step y
+           | Ok None => Ok x
+           | Raise e => Raise e end
+  end.
+
+(* ---- set.add on a set kept as a duplicate-free list (K17) ---- *)
+Definition k_set_add (s x: kv) : res kv :=
+  match s with
+  | KList l => Ok (KList (if existsb (kv_eqb x) l then l else l ++ [x]))
+  | _ => Raise AttributeError end.
